@@ -677,6 +677,27 @@ class FnTr:
             if fb[2] == T_NEVER:
                 self.scope.diverged = True
             return v, fb[2]
+        if len(segs) >= 2 and segs[-2] == 'mem' and n in ('replace', 'take') and len(e.args) == (2 if n == 'replace' else 1) \
+                and e.args[0].kind == 'ref' and e.args[0].mut:
+            # `mem::replace(&mut place, v)` / `mem::take(&mut place)`: the old value is the result, the place is
+            # overwritten (a field of `&mut self` or a `let mut` local - whatever an assignment accepts)
+            place = e.args[0].e
+            cur, tcur = self.expr(place)
+            old = self.emit_val("cret %s" % cur)
+            if n == 'replace':
+                rhs = e.args[1]
+            else:
+                tb = strip_ref(tcur)[0]
+                if tb[0] == 'bool':
+                    rhs = Node('bool', e.line, value=False)
+                elif tb[0] == 'int':
+                    rhs = Node('int', e.line, value=0, suffix=None)
+                elif tb[0] == 'adt' and tb[1] == 'Option':
+                    rhs = Node('path', e.line, segs=['None'])
+                else:
+                    self.err("`mem::take` on this type is not supported", e)
+            self.e_assign(Node('assign', e.line, op='=', lhs=place, rhs=rhs), None)
+            return old, strip_ref(tcur)[0]
         if n in ('Some', 'Ok', 'Err') and len(e.args) == 1 and (len(segs) == 1 or segs[-2] in ('Option', 'Result')):
             ex = strip_ref(expected)[0] if expected is not None else None
             if n == 'Some':
@@ -882,6 +903,14 @@ class FnTr:
                 return v, base[2][0]
             if name == 'clone' and not e.args:
                 return r, base
+            if name in ('take', 'replace') and base[1] == 'Option' and len(e.args) == (0 if name == 'take' else 1):
+                # `place.take()` / `place.replace(v)`: the old value is the result, the place is overwritten
+                # (a field of `&mut self` or a `let mut` local - whatever an assignment accepts)
+                old = self.emit_val("cret %s" % r)
+                rhs = Node('path', e.line, segs=['None']) if name == 'take' else \
+                    Node('call', e.line, fn=Node('path', e.line, segs=['Some']), args=[e.args[0]])
+                self.e_assign(Node('assign', e.line, op='=', lhs=e.recv, rhs=rhs), None)
+                return old, base
             self.err("method `%s` on Option/Result is not supported" % name, e)
         if k == 'param':
             for p, traits in self.fi.bounds:
